@@ -285,21 +285,11 @@ def check_c02(live, full=True):
         out.append(('glob_idx', {'n': len(idx), 'distinct': len(set(idx))}))
     vs = mesh.vertices
     coords = {}
-    for pos, v in enumerate(vs):
-        if v.idx != pos:
-            out.append(('vertex_idx', {'pos': pos, 'idx': v.idx}))
-            break
     for v in vs:
         if (v.t, v.x) in coords:
             out.append(('vertex_duplicate', {'tx': [v.t, v.x]}))
             break
         coords[(v.t, v.x)] = v
-    # every leaf corner is a registered vertex object
-    vid = set(map(id, vs))
-    for e in leaves:
-        if any(id(v) not in vid for v in e.vertices):
-            out.append(('vertex_unregistered', {'elem': repr(e)}))
-            break
     # --- gmsh
     try:
         with repo.quiet():
